@@ -555,7 +555,8 @@ def write_evidence(args, agg, hellos, wall, n_runs, n_twins, n_echo, lines, rc):
             "distinct_interleavings": len(agg.interleavings),
             "distinct_states_estimate": agg.states.estimate(),
             "distinct_states_measure": "linear-counting estimate over hashes of (digest of every shared argument object, per live handle: spec and set of paths read so far), sampled after every step",
-            "runs_truncated_by_step_cap": agg.truncated,
+            "runs_that_used_their_whole_step_budget": agg.truncated,
+            "step_budget_note": "every run is given a step budget (mixed 16-80, sweep/deck 150-220, marathon 4000/12000) and the scheduler always spends it; nothing is cut short by a wall-clock cap unless harness_errors > 0",
             "slowest_run_wall_s": round(agg.max_run_wall, 2),
             "per_run_timeout_s": 40,
             "violating_runs": agg.violation_count,
